@@ -1,6 +1,7 @@
 """C08 - file and directory names mean the same thing in every command and reply."""
 import itertools
 import json
+import pathlib
 import random
 
 import aioftp
@@ -124,6 +125,38 @@ def run_case(c):
     return {"crash": None, "rec": rec, "trace": out["trace"], "cfg": cfg, "tree": tree}
 
 
+def upload_case(name):
+    """Client.upload / Client.download of a local directory whose entries carry the name: every object arrives under exactly that name."""
+    from checks import c09
+    users = [{"id": "u1", "login": "u1", "pw": "", "max": 0, "perms": [], "home": [], "base": ["R"]}]
+    cfg = gen.std_cfg(ns=1, users=users)
+    rec = {}
+    src = [([], "d", None), ([name], "f", [7]), ([name + "d"], "d", None), ([name + "d", "k"], "f", [8]), ([name + "d", name], "f", [9])]
+
+    async def sc(factory, w):
+        cl = factory(path_io_factory=aioftp.MemoryPathIO)
+        await cl.connect("127.0.0.1", W.CTL_PORT)
+        await cl.login("u1", "x")
+        try:
+            await c09.local_fill(cl.path_io, pathlib.Path("/loc/src"), src)
+            await cl.upload(pathlib.Path("/loc/src"), "/up", write_into=True)
+            rec["remote"] = sorted((e["p"], e["k"], e["c"]) for e in c09.tree_entries(w.snapshot(), ["R", "up"]))
+            await c09.local_fill(cl.path_io, pathlib.Path("/back"), [([], "d", None)])
+            await cl.download("/up", pathlib.Path("/back"), write_into=True)
+            rec["local"] = sorted((e["p"][1:], e["k"], e["c"]) for e in c09.mem_entries(cl.path_io) if e["p"][:1] == ["back"] and len(e["p"]) > 1)
+        except Exception as e:  # noqa
+            rec["error"] = repr(e)
+        await cl.quit()
+
+    out = clientdrv.run_clients(cfg, {"d": [["R"]], "f": []}, {1: sc})
+    if out["crash"]:
+        return {"crash": out["crash"]}
+    want = sorted((p, k, c or []) for p, k, c in src if p)
+    fix = lambda t: sorted((p, k, c or []) for p, k, c in t)
+    ok = not rec.get("error") and not out["hang"] and not out["exc"] and fix(rec.get("remote", [])) == want and fix(rec.get("local", [])) == want
+    return {"crash": None, "ok": ok, "rec": rec, "want": want}
+
+
 def run(tier, seed):
     chk = report.Check("C08", tier, seed)
     rng = random.Random(seed)
@@ -138,6 +171,14 @@ def run(tier, seed):
         if rng.random() < 0.35 or any(x in n for x in (" -> ", " ", "-", "7")):
             cases.append({"name": n, "depth": depth, "fname": f, "gname": g, "relative": rng.random() < 0.3, "fallback": True})
     results = corecheck.pool().map(run_case, cases, chunksize=8)
+    # whole directories through Client.upload / Client.download, entries named by every name
+    up_names = ns if tier != "quick" else ns[::3]
+    for n, r in zip(up_names, corecheck.pool().map(upload_case, up_names, chunksize=8)):
+        if r["crash"]:
+            raise RuntimeError("harness failure: " + r["crash"])
+        chk.cov["evaluations"] += 1
+        if not r["ok"]:
+            chk.violation({"at": "name-upload-download", "has_backslash": "\\" in n}, {"name": n, "got": r["rec"], "want": r["want"]}, {"name": n, "op": "upload+download"})
     jc = []
     for c, r in zip(cases, results):
         if r["crash"]:
